@@ -4,7 +4,7 @@
 // `probe`).  Run:
 //
 //	cd /verif/harness && GOFLAGS=-mod=mod GOPROXY=off GOSUMDB=off GOTOOLCHAIN=local go1.26 test -vet=off \
-//	  -tags 'verif probe' -overlay=/verif/harness/c02/overlay/overlay.json -run TestProbeFrontLocal -count=1 ./c02
+//	  -tags 'verif probe' -run TestProbeFrontLocal -count=1 ./c02
 //	cat /tmp/c02-probe.out
 //
 // Expected on /repo 7b326e6 (D23 repaired; zoo.okboom is part of the check's zoo now):
@@ -38,6 +38,7 @@ func (z *Zoo) Hang(ctx *impls.HandlerContext, a *Arg, cb apientry.HandlerCBFunc)
 }
 
 func TestProbeFrontLocal(t *testing.T) {
+	rig = newTCPRig()
 	synctest.Test(t, func(t *testing.T) {
 		h := hx.Open()
 		w := start(h)
